@@ -122,6 +122,10 @@ func (st *stats) record(h uint64, o Outcome, scen func() []byte) {
 				b := scen()
 				if len(b) < 6000 {
 					st.Samples = append(st.Samples, b)
+				} else {
+					// long scenarios (hundreds of writes) are sampled by their head
+					t, _ := json.Marshal(map[string]any{"scenario_json_head": string(b[:3000]), "scenario_json_bytes": len(b)})
+					st.Samples = append(st.Samples, t)
 				}
 			}
 		}
